@@ -9,6 +9,7 @@ import (
 	"go/token"
 	"go/types"
 	"math/big"
+	"os"
 	"strings"
 )
 
@@ -46,6 +47,7 @@ type specEnv struct {
 	contract *Contract
 	binders  []map[string]T
 	inOld    bool
+	side     [][]string // per enclosing quantifier: type facts about terms read under it
 }
 
 func (e *specEnv) lookupBinder(name string) (T, bool) {
@@ -220,12 +222,29 @@ func (e *specEnv) eval(s *SExpr) T {
 			}
 		}
 		e.binders = append(e.binders, frame)
+		e.side = append(e.side, nil)
 		body := e.eval(s.Args[0])
 		var pats []string
 		for _, pe := range s.Args[1:] {
 			pats = append(pats, e.eval(pe).S)
 		}
+		side := e.side[len(e.side)-1]
+		e.side = e.side[:len(e.side)-1]
 		e.binders = e.binders[:len(e.binders)-1]
+		// type facts about terms read under this quantifier (valid in every model
+		// of typed memory): hypotheses of a forall, conjuncts of an exists
+		seen := map[string]bool{}
+		// (disabled: typed-memory axioms on heap arrays and fresh slices already
+		// provide the ranges; extra hypotheses made assumed and proved instances of
+		// the same invariant differ)
+		if s.Name == "forall" && os.Getenv("GOVC_SIDE_FACTS") != "" {
+			for _, f := range side {
+				if !seen[f] && f != "true" {
+					seen[f] = true
+					guards = append(guards, f)
+				}
+			}
+		}
 		g := and(guards...)
 		wrapPat := func(b string) string {
 			if len(pats) == 0 {
@@ -421,10 +440,37 @@ func (e *specEnv) evalField(base T, name string) T {
 		target = e.old
 	}
 	if len(e.binders) > 0 {
-		// facts learned about terms with bound variables must not leak into the state
+		// facts learned about terms with bound variables must not leak into the
+		// state; they are type facts (ranges of typed memory) and are attached to
+		// the enclosing quantifier instead
 		target = target.clone()
+		n0 := len(target.pc)
+		v := x.loadPathNoCheck(target, base, t, path)
+		if len(e.side) > 0 {
+			for _, f := range target.pc[n0:] {
+				// keep only state-independent type facts (integer ranges); allocation
+				// facts depend on the state they were produced in
+				if strings.Contains(f, "(select alloc") || strings.HasPrefix(f, "(or (= ") {
+					continue
+				}
+				e.side[len(e.side)-1] = append(e.side[len(e.side)-1], f)
+			}
+		}
+		return v
 	}
 	return x.loadPathNoCheck(target, base, t, path)
+}
+
+// sideFact records a type fact about a term that may mention bound variables.
+func (e *specEnv) sideFact(v T) {
+	if len(e.side) == 0 || v.Ty == nil {
+		return
+	}
+	if isIntType(v.Ty) {
+		if rf := e.x.rangeFact(v); rf != "true" {
+			e.side[len(e.side)-1] = append(e.side[len(e.side)-1], rf)
+		}
+	}
 }
 
 func (e *specEnv) pkgTypes() *types.Package {
@@ -471,11 +517,17 @@ func (e *specEnv) evalIndex(base, idx T) T {
 	}
 	switch u := base.Ty.Underlying().(type) {
 	case *types.Slice:
-		return T{S: slcAt(base.S, idx.S), Ty: u.Elem()}
+		v := T{S: slcAt(base.S, idx.S), Ty: u.Elem()}
+		e.sideFact(v)
+		return v
 	case *types.Array:
-		return T{S: fmt.Sprintf("(select %s %s)", base.S, idx.S), Ty: u.Elem()}
+		v := T{S: fmt.Sprintf("(select %s %s)", base.S, idx.S), Ty: u.Elem()}
+		e.sideFact(v)
+		return v
 	case *types.Map:
-		return T{S: fmt.Sprintf("(select (mp-val %s) %s)", base.S, idx.S), Ty: u.Elem()}
+		v := T{S: fmt.Sprintf("(select (mp-val %s) %s)", base.S, idx.S), Ty: u.Elem()}
+		e.sideFact(v)
+		return v
 	case *types.Basic:
 		if u.Info()&types.IsString != 0 {
 			e.x.d.declareFun("str_at", []string{"Str", "Int"}, "Int")
@@ -572,6 +624,10 @@ func (e *specEnv) evalCall(s *SExpr) T {
 		// bigval(p): mathematical value of *big.Int p
 		p := e.eval(s.Args[0])
 		return mkMath(x.bigVal(e.cur(), p.S))
+	case "bytesEqual":
+		a, b := e.eval(s.Args[0]), e.eval(s.Args[1])
+		x.d.declareFun("bytes_equal", []string{"(Slc Int)", "(Slc Int)"}, "Bool")
+		return mkBool(app("bytes_equal", a.S, b.S))
 	case "div", "mod":
 		// Euclidean (SMT-LIB) division for specifications over non-negative values
 		a, b := e.eval(s.Args[0]), e.eval(s.Args[1])
